@@ -168,7 +168,9 @@ CHECKS: dict[str, dict] = {
         "real": ["ramses_rf.Gateway with discovery", "entity_base._Discovery pollers", "system/heat.py, zones.py _handle_msg + schema",
                  "dispatcher", "QoS send path + PortTransport", "parsers 0005/000C/..."],
         "stub": STUB_RF + ["simrf.peers.SimController (written from the frame examples, independent of the library's builders)"],
-        "assumptions": ["MIN_INTER_WRITE_GAP is raised to 1.0 s (the top of its legal range) so that 49 virtual hours cost seconds",
+        "assumptions": ["MIN_INTER_WRITE_GAP is raised to 1.0 s (the top of its legal range) so that 49 virtual hours cost seconds; 0.25 s for "
+                        "configurations of more than 6 zones (with 1.0 s their polling bursts overflow the library's send buffer -- KF1's "
+                        "mechanism -- and one probe can fail at every round)",
                         "actuator device types are those the library accepts as zone children (04: TRV, 13: BDR)",
                         "a lost reply is recovered at the next 24 h polling round: that is what 'a later polling round' means here"],
     },
